@@ -39,7 +39,7 @@ OPS = ["FMAtomicSets", "FMAverageBranchingFactor", "FMCoreFeatures", "FMCountLea
 
 def plan(tier, seed):
     return [{"shard": i, "nshards": NSHARDS, "pool": 6 if tier == "quick" else 12,
-             "n_gra": 60 if tier == "quick" else 700, "seeds": 20 if tier == "quick" else 50}
+             "n_gra": 60 if tier == "quick" else 2000, "seeds": 20 if tier == "quick" else 50}
             for i in range(NSHARDS)]
 
 
